@@ -28,7 +28,9 @@ theorem step_send_log (c : Cfg) (s s' : State) (it : Item) (ab : Abort) (d : Boo
   · simp at hs
   · split at hs
     · obtain rfl := Option.some.inj hs; exact ⟨⟨_, rfl, rfl⟩, rfl, rfl⟩
-    · obtain rfl := Option.some.inj hs; exact ⟨⟨_, rfl, rfl⟩, rfl, rfl⟩
+    · split at hs
+      · simp at hs
+      obtain rfl := Option.some.inj hs; exact ⟨⟨_, rfl, rfl⟩, rfl, rfl⟩
 
 /-- any other label leaves the log alone and only appends to what the receiver returned -/
 theorem step_other_log (c : Cfg) (s s' : State) (l : Label) (hl : Mpsc.isSend l = false)
